@@ -56,6 +56,17 @@ def c02(tier, seed, work):
                             OpNames={"CreateBucket", "DeleteBucket", "ForceDelete", "PutObject", "GetObject", "DeleteObject",
                                      "ListObjects", "ListBuckets"}),
                ALL4, **st)
+    # bucket names that sort before the backends' internal names (a leading digit) next to ordinary ones
+    tour_stage(rep, work, "digit-bucket-names", "MC_Store",
+               store_consts(Buckets={"0ab", "bkt1"}, KeySetName="a", Bodies={"x1"},
+                            OpNames={"CreateBucket", "DeleteBucket", "HeadBucket", "PutObject", "GetObject", "ListBuckets", "ListObjects"}),
+               ALL4, **st)
+    # keys with unusual but legal characters, drawn per tour (punctuation special to URLs / XML / file systems /
+    # base64, DEL, C1 controls, 2-4-byte UTF-8, trailing blanks)
+    tour_stage(rep, work, "store-odd-characters", "MC_Store",
+               store_consts(Buckets={"bkt1"}, KeySetName="nest", Bodies={"x1"},
+                            OpNames=CORE_OPS - {"HeadBucket", "ListBuckets", "CreateBucket", "DeleteBucket"} | {"CreateBucket"}),
+               ALL4, keys="rich3", small=True, **st)
     # beyond the listed operations: forced bucket deletion (x-minio-force-delete) and conditional reads (If-None-Match)
     tour_stage(rep, work, "force-delete-cond-get", "MC_Store",
                store_consts(Buckets={"bkt1"}, Bodies={"x1", "x2"},
@@ -203,6 +214,11 @@ def c03(tier, seed, work):
     # order- and structure-preserving substitution of the key bytes
     tour_stage(rep, work, "kv-rich", "MC_List", list_consts(MaxSet=2, MaxLen=2, Delims={0, 47}), ["mem", "bolt", "multimem"],
                keys="rich", invariants=["EmitInv"], **common)
+    # ... and with characters drawn per key set from a pool of unusual but legal ones (incl. 4-byte UTF-8)
+    tour_stage(rep, work, "kv-odd-characters", "MC_List", list_consts(MaxSet=2, MaxLen=3, Delims={0, 47}), ["mem", "bolt"],
+               keys="rich3", invariants=["EmitInv"], **common)
+    tour_stage(rep, work, "fs-odd-characters", "MC_List", list_consts(MaxSet=2, MaxLen=3, Delims={0, 47}, FsDomain=True),
+               ["multimem", "multios"], keys="rich3", invariants=["EmitInv"], **common)
     rep.assumptions += [
         "keys neither start nor end with the delimiter, prefixes do not start with it (the property's domain)",
         "fs backends: no key is a directory of another key, no empty path segments (DESIGN 5.3)",
@@ -220,7 +236,7 @@ def c04(tier, seed, work):
                ["mem"], "objects", invariants=["EmitInv"], view=None, emit=None, tlc_workers=8)
     # the same walks with keys that need URL escaping / are not ASCII, and with keys whose bytes make the
     # continuation tokens contain the characters in which base64 alphabets differ
-    for km in ("rich", "rich2"):
+    for km in ("rich", "rich2", "rich3"):
         walk_stage(rep, work, "mem-walks-" + km, "MC_List", list_consts(MaxSet=2, MaxLen=2, PrefixLen=1, Delims={0, 47}),
                    ["mem"], "objects", invariants=["EmitInv"], view=None, emit=None, tlc_workers=8, keys=km)
     # more than 1000 keys: the default page limit decides (no max-keys at all, 1000, 999, 400), on the paginating
@@ -286,6 +302,11 @@ def c13(tier, seed, work):
                             OpNames={"CreateBucket", "PutObject", "DeleteObject", "PutVersioning",
                                      "DeleteObjectVersion"}),
                ["mem"], "versions", emit=None, invariants=["EmitState"])
+    # the same with unusual characters in the keys and prefixes cut inside them
+    walk_stage(rep, work, "version-walks-odd-characters", "MC_Store",
+               store_consts(Buckets={"bkt1"}, KeySetName="nest2", CfgName="mem", Bodies={"x1"}, MaxVids=2, Ghosts=False,
+                            OpNames={"CreateBucket", "PutObject", "DeleteObject", "PutVersioning"}),
+               ["mem"], "versions", emit=None, invariants=["EmitState"], keys="rich3")
     # more than 1000 versions of one key: the default page limit decides
     scale_stage(rep, work, "scale-versions", "versions", ["mem"])
     rep.assumptions += [
@@ -327,6 +348,11 @@ def c06(tier, seed, work):
                    ["mem"], small=True, memtrace=True, **st)
     # beyond the small scope: one upload of 1003 parts (more than the listing page limit) completed with all of them
     conc_stage(rep, work, "scale-1003-parts", ["mem", "bolt", "multimem"], [1], runs=0, ops=0, keys=1, gated=False, big="multipart")
+    # multipart life cycle on keys that are not valid UTF-8
+    tour_stage(rep, work, "mp-invalid-utf8-keys", "MC_Store",
+               store_consts(Buckets={"bkt1"}, KeySetName="hostile5", Bodies={"x1"}, PartBodies={"p1"}, PartNums={1}, MaxUploads=1,
+                            MaxList=1, Ghosts=False, OpNames={"CreateBucket", "Initiate", "UploadPart", "Complete", "Abort", "GetObject"}),
+               ["mem", "multimem"], small=True, **st)
     # three part numbers with a gap, lists that skip an uploaded part in the middle
     tour_stage(rep, work, "mp-gaps", "MC_Store",
                store_consts(Buckets={"bkt1"}, KeySetName="a", Bodies={"x1"}, PartNums={1, 2, 5}, PartBodies={"p1"},
@@ -386,6 +412,11 @@ def c14(tier, seed, work):
                store_consts(Buckets={"bkt1"}, KeySetName="nest", MaxUploads=4 if thorough else 3, Ghosts=False,
                             OpNames={"CreateBucket", "Initiate", "Abort"}),
                ["mem"], "uploads", emit=None, invariants=["EmitState"])
+    # the same with unusual characters in the keys and prefixes cut inside them
+    walk_stage(rep, work, "uploads-walks-odd-characters", "MC_Store",
+               store_consts(Buckets={"bkt1"}, KeySetName="nest", MaxUploads=3, Ghosts=False,
+                            OpNames={"CreateBucket", "Initiate", "Abort"}),
+               ["mem"], "uploads", emit=None, invariants=["EmitState"], keys="rich3")
     # more than 1000 parts (and part numbers up to 10000) / more than 1000 uploads: the default page limits decide
     scale_stage(rep, work, "scale-parts", "parts", ["mem"])
     scale_stage(rep, work, "scale-uploads", "uploads", ["mem"])
@@ -452,6 +483,13 @@ def c16(tier, seed, work):
     modes = [("hostbucket", "host:!s3.test"), ("bases=s3.test+s3.alt:9000", "host:s3.alt:9000"),
              ("bases=s3.test", "host:s3.test"), ("", "slashes"), ("bases=s3.test", "slashes"),
              ("bases=test+s3.test", "host:!s3.test")]
+    # keys with '+', '=', '?', '#', blanks and non-ASCII characters, the request line spelled with a non-canonical
+    # escaping (net/http then fills URL.RawPath): virtual-host and path style must address the same objects
+    for opts, addr in (("bases=s3.test", "host:s3.test+rawpath"), ("hostbucket", "host:!s3.test+rawpath"), ("", "+rawpath")):
+        tour_stage(rep, work, "store-rich-keys " + (opts or "path") + "/" + addr, "MC_Store",
+                   store_consts(Buckets={"bkt1"}, KeySetName="list", Bodies={"x1"}, Ghosts=False,
+                                OpNames={"CreateBucket", "PutObject", "GetObject", "HeadObject", "DeleteObject", "CopyObject", "ListObjects"}),
+                   ["mem", "bolt"], opts=opts, addr=addr, keys="rich", small=True)
     for opts, addr in modes:
         tag = (opts or "path") + "/" + addr
         tour_stage(rep, work, "store " + tag, "MC_Store",
@@ -537,10 +575,12 @@ def c01(tier, seed, work):
                store_consts(Buckets={"bkt1"}, KeySetName="nest2", Bodies={"x1"}, Ghosts=False,
                             OpNames={"CreateBucket", "PutMetaB", "PutMeta", "CopyMeta", "CopyObject", "GetObject", "HeadObject"}),
                ALL4, small=True, invariants=STORE_INVS, properties=["ReadYourWrite", "Frame"])
-    # overwrites whose metadata headers carry empty values (the acknowledged, empty, value is what reads return)
+    # overwrites whose metadata headers carry empty values (the acknowledged, empty, value is what reads return), and
+    # values that look like encoding markers (base64:..., percent escapes, MIME encoded-words, JSON)
     tour_stage(rep, work, "empty-metadata-values", "MC_Store",
                store_consts(Buckets={"bkt1"}, KeySetName="a", Bodies={"x1"}, Ghosts=False,
-                            OpNames={"CreateBucket", "PutMetaB", "PutMeta", "PutMetaE", "PostMeta", "CopyObject", "GetObject", "HeadObject"}),
+                            OpNames={"CreateBucket", "PutMetaB", "PutMeta", "PutMetaE", "PutMetaF", "PostMeta", "CopyObject", "GetObject",
+                                     "HeadObject"}),
                ALL4, small=True, invariants=STORE_INVS, properties=["ReadYourWrite", "Frame"])
     st = dict(invariants=STORE_INVS, properties=["ReadYourWrite", "Frame"])
     consts = store_consts(Buckets={"bkt1"}, KeySetName="nest2", Bodies={"x1", "x2"}, WithEmpty=True, OpNames=ops, Ghosts=False)
@@ -595,6 +635,15 @@ def c15(tier, seed, work):
     tour_stage(rep, work, "reopen-bucket-named-keys-single", "MC_Store",
                store_consts(Buckets={"bkt1"}, KeySetName="bname", Bodies={"x1"}, CfgName="single",
                             OpNames=(CORE_OPS | {"PutMetaB"}) - {"ListBuckets"}),
+               ["singleos"], reopen=True, **st)
+    # keys that are not valid UTF-8, with metadata, across a restart
+    tour_stage(rep, work, "reopen-invalid-utf8-keys", "MC_Store",
+               store_consts(Buckets={"bkt1"}, KeySetName="hostile5", Bodies={"x1"},
+                            OpNames={"CreateBucket", "PutMetaB", "GetObject", "HeadObject", "DeleteObject", "ListObjects"}),
+               ["bolt", "multios"], opts="boltsync", reopen=True, **st)
+    tour_stage(rep, work, "reopen-invalid-utf8-keys-single", "MC_Store",
+               store_consts(Buckets={"bkt1"}, KeySetName="hostile5", Bodies={"x1"}, CfgName="single",
+                            OpNames={"PutMetaB", "GetObject", "HeadObject", "DeleteObject", "ListObjects"}),
                ["singleos"], reopen=True, **st)
     # crash points: every mutating transition killed at each of its mutating file-system calls
     crash_stage(rep, work, "crash-multi", store_consts(Buckets={"bkt1"}, OpNames=CORE_OPS - {"ListBuckets", "HeadBucket"}),
@@ -702,6 +751,15 @@ def c10(tier, seed, work):
                store_consts(Buckets={"bkt1"}, KeySetName="longshared", Bodies={"x1", "x2"}, CfgName="single",
                             OpNames={"PutMeta", "PutMetaB", "GetObject", "HeadObject", "DeleteObject", "ListObjects"}),
                ["singlemem"], small=True, **st)
+    # keys that are not valid UTF-8 (gofakes3 stores byte strings): each keeps its own content and metadata
+    tour_stage(rep, work, "keys-invalid-utf8", "MC_Store",
+               store_consts(Buckets={"bkt1"}, KeySetName="hostile5", Bodies={"x1"},
+                            OpNames={"CreateBucket", "PutMeta", "PutMetaB", "GetObject", "HeadObject", "DeleteObject", "ListObjects"}),
+               ALL4, small=True, **st)
+    tour_stage(rep, work, "keys-invalid-utf8-single", "MC_Store",
+               store_consts(Buckets={"bkt1"}, KeySetName="hostile5", Bodies={"x1"}, CfgName="single",
+                            OpNames={"PutMeta", "PutMetaB", "GetObject", "HeadObject", "DeleteObject", "ListObjects"}),
+               ["singlemem", "singleos"], small=True, **st)
     # keys that are the directory of a stored key: read and deleted like any missing key, the stored keys untouched
     tour_stage(rep, work, "directory-keys", "MC_Store",
                store_consts(Buckets={"bkt1"}, KeySetName="dirkey", Bodies={"x1"},
